@@ -346,7 +346,10 @@ def check_c20(prop, tier, seed):
             it['dead'] = 'm2'
         # directed: mirrors that never take anything, then more requests than the channel holds
         if j % 5 == 0:
-            it['init'] = {'m1': rng.choice(['stall', 'hang_startup']), 'm2': rng.choice(['stall', 'hang_startup', 'slow'])}
+            stuck = ['stall', 'hang_startup']
+            it['init'] = rng.choice([{'m1': rng.choice(stuck), 'm2': rng.choice(stuck + ['slow'])},
+                                     {'m1': 'up', 'm2': rng.choice(stuck)},
+                                     {'m1': rng.choice(stuck), 'm2': 'up'}])
             it['steps'] = [x for x in it['steps'] if x['op'] != 'fault'] + [{'op': 'req', 'a': 's1', 'b': 'burst'},
                                                                             {'op': 'req', 'a': 's2', 'b': 'burst'}]
         items.append(it)
@@ -417,6 +420,6 @@ def check_c20(prop, tier, seed):
         v.add_sample({'topo': it['topo'], 'init': it['init'], 'steps': [(x['op'], x['a'], x['b']) for x in it['steps']],
                       'mirror_conns': r['mirror_conns'], 'delivered': r['delivered']})
     v.cov['rule'] = ('histories = random behaviours (tlc -simulate, seeded) of Gen_Mirror: 6 requests of 7 kinds to 2 servers, up to 4 '
-                     'fault changes / recycles, pauses; 6 mirror-to-server mappings; every fifth history is directed at a full channel; '
+                     'fault changes / recycles, pauses; 6 mirror-to-server mappings; every fifth history is directed at a full channel (both mirrors stuck, or one stuck and one healthy); '
                      'each history is run with and without mirrors; nontrivial = histories in which a mirror received something')
     return v.finish()
